@@ -92,6 +92,26 @@ func dice(rng *rng.RNG) func(int) int {
 	}
 }
 
+// checkedRandomRange is randomRange for scripts: bounds it cannot handle are an error instead of a panic
+func checkedRandomRange(rng *rng.RNG) func(int, int) (int, error) {
+	return func(lowerBound, upperBound int) (int, error) {
+		if lowerBound > upperBound || upperBound-lowerBound < 0 || upperBound-lowerBound == math.MaxInt {
+			return 0, fmt.Errorf("cannot pick a random integer between %d and %d", lowerBound, upperBound)
+		}
+		return rng.IntBetween(lowerBound, upperBound), nil
+	}
+}
+
+// checkedDice is dice for scripts: a dice without sides is an error instead of a panic
+func checkedDice(rng *rng.RNG) func(int) (int, error) {
+	return func(sides int) (int, error) {
+		if sides < 1 {
+			return 0, fmt.Errorf("a dice needs at least one side, got %d", sides)
+		}
+		return rng.IntBetween(1, sides), nil
+	}
+}
+
 // round rounds f to the nearest integer
 func round(f float64) float64 {
 	return math.Round(f)
